@@ -25,7 +25,7 @@ import (
 func init() {
 	Register("oracle14", runOracle14)
 	RegisterPlan(Plan{Prop: "C14", Engine: "oracle14", Quick: 40, Thorough: 600, Level: "fault_enumeration", MinCases: 8,
-		Rule: "histories of the oracle workload (40-60 blocks; see C12/C13) recorded as per-block transaction bytes; for EVERY height h of each history a replica replays 1..h, restarts (fresh ExocoreApp over the same DB + reset of the oracle's package-level state), continues, and its per-block trace (app hash, per-tx code/gas/data, validator updates, oracle store digest, normalised in-memory digest H1) is compared with the uninterrupted run; every 4th history additionally restarts at 2-4 heights in one replica. Distinct = ⟨round phase at the restart point (mid-window / window end / idle / right after finalisation / right after a validator-set change), #feeders with an open round⟩."})
+		Rule: "histories of the oracle workload (40-60 blocks, including accepted and refused parameter updates; see C12/C13) recorded as per-block transaction bytes; for EVERY height h of each history a replica replays 1..h, restarts (fresh ExocoreApp over the same DB + reset of the oracle's package-level state), continues, and its per-block trace (app hash, per-tx code/gas/data, validator updates, oracle store digest, normalised in-memory digest H1) is compared with the uninterrupted run; every 4th history additionally restarts at 2-4 heights in one replica. Distinct = ⟨round phase at the restart point (mid-window / window end / idle / right after finalisation / right after a validator-set change), #feeders with an open round⟩."})
 }
 
 type blockScript struct {
